@@ -445,7 +445,13 @@ def generate(repo, vc_path, out_path):
         if origin[0] in ('raw', 'ann'):
             for nm, rx in TRUST_PAT:
                 if rx.search(t) and not s.startswith('//'):
-                    trusted.append({'kind': nm, 'gen_line': i, 'vc_line': origin[1], 'text': s[:160]})
+                    what = s
+                    if s.startswith('#[') and s.endswith(']'):
+                        # an attribute on its own line: what is trusted is the declaration that follows it
+                        for _, t2 in lines[i:i + 6]:
+                            s2 = t2.strip()
+                            if s2 and not s2.startswith('#[') and not s2.startswith('//'): what = s2; break
+                    trusted.append({'kind': nm, 'gen_line': i, 'vc_line': origin[1], 'text': what[:200]})
         if origin[0] == 'raw':
             if s.startswith('#['): pending_attr.append(s)
             fm = fn_rx.match(t)
